@@ -80,7 +80,7 @@ func init() {
 		Technique:   "differential monitor against byte-level references + round-trip identities",
 		Assumptions: []string{"the references are trusted (Substr: out-of-range selection = empty string, as the property restates the PHP rule)", "not asserted: Pad* with an empty token, case mapping/WrapAllRune on invalid UTF-8, the case styles outside ASCII alphanumeric words joined by runs of ' -_&'"}})
 	reg(&propCfg{ID: "C16", Pkg: "./props/c16", Variants: simple(false),
-		Level:       "held on every executed case: every adapter (one per exported slice/map helper, cross-checked against the package's exported functions) x 200 (thorough 2000) generated argument tuples x spare capacity {0,1,8}, and every ordered pair of non-in-place adapters sharing the first argument x 20 (200) tuples; arguments compared with shadow copies incl. sentinel-filled capacity regions, earlier results re-read after later calls",
+		Level:       "held on every executed case: every adapter (one per exported slice/map helper, cross-checked against the package's exported functions) x 200 (thorough 2000) generated argument tuples x spare capacity {0,1,8}, and every ordered pair of non-in-place adapters sharing the first argument x 20 (200) tuples; arguments compared with shadow copies incl. sentinel-filled capacity regions, the slice-of-slices behind spread variadic parameters and []map collections tracked slot by slot, earlier results re-read after later calls (heap.Sort's result also after later in-place calls on the same argument)",
 		Technique:   "shadow-copy monitor with capacity-region sentinels; result re-read after later calls",
 		Assumptions: []string{"helpers whose arguments are strings/scalars only cannot disturb them (Go strings are immutable) and are listed, not executed", "views (Drop, Chunk) may alias their argument; only writes are judged", "the documented in-place helpers are Reverse, Reject, Omit, OmitBy, heap.FromSlice, heap.Sort"}})
 	reg(&propCfg{ID: "C18", Pkg: "./props/c18", Variants: simple(false),
